@@ -66,7 +66,7 @@ var controls = []control{
 	{"C07", "window one slot too high", "Builder/GoTemplBuilder.go", "\"[topIndex-%d : \"", "\"[topIndex-%d+1 : \"", "slot-equation"},
 	{"C07", "fetch before push in the object template", "Builder/GoObjectTemplate.go", "\t\t\t\tc.PushStateSym(&StateSym{\n\t\t\t\t\tYystate:    a,\n\t\t\t\t\tYySymIndex: lookAhead,\n\t\t\t\t\tValType:    val,\n\t\t\t\t})\n\t\t\t\tlookAhead = fetchLookAhead(input, &val, &currentPos)", "\t\t\t\tprev := lookAhead\n\t\t\t\tlookAhead = fetchLookAhead(input, &val, &currentPos)\n\t\t\t\tc.PushStateSym(&StateSym{\n\t\t\t\t\tYystate:    a,\n\t\t\t\t\tYySymIndex: prev,\n\t\t\t\t\tValType:    val,\n\t\t\t\t})", "values-travel-with-symbols"},
 	{"C07", "$$ takes the tag of the first rhs symbol", "Builder/TsGenCode.go", "fmt.Sprintf(\"dollarDolar.ValType.%s\", pr.LeftPart.Tag))", "fmt.Sprintf(\"dollarDolar.ValType.%s\", pr.RighPart[0].Tag))", "$$-tag"},
-	{"C07", "benign: name the match index", "Builder/GoTemplBuilder.go", "\t\ti, _ := strconv.Atoi(index)\n\t\treturn fmt.Sprintf(\"Dollar[%s].%s\", index, pr.RighPart[i-1].Tag)", "\t\ti, _ := strconv.Atoi(index)\n\t\tsym := pr.RighPart[i-1]\n\t\treturn fmt.Sprintf(\"Dollar[%s].%s\", index, sym.Tag)", ""},
+	{"C07", "benign: name the match index", "Builder/GoTemplBuilder.go", "\t\ti, _ := strconv.Atoi(index)\n\t\treturn fmt.Sprintf(\"Dollar[%d].%s\", i, pr.RighPart[i-1].Tag)", "\t\ti, _ := strconv.Atoi(index)\n\t\tsym := pr.RighPart[i-1]\n\t\treturn fmt.Sprintf(\"Dollar[%d].%s\", i, sym.Tag)", ""},
 
 	// ---- C08
 	{"C08", "object template shifts on a >= 0", "Builder/GoObjectTemplate.go", "\t\t\tif a > 0 {", "\t\t\tif a >= 0 {", "templates/"},
